@@ -163,6 +163,9 @@ func (s *fakeTLSServer) serve(conn net.Conn, behavior string) {
 				// inside TLS this server only speaks HELO: the client must end up with NO extensions,
 				// not with the ones it heard in plaintext
 				io.WriteString(conn, "502 5.5.1 EHLO not implemented here\r\n")
+			case inTLS && behavior == "tls-ehlo-noauth":
+				// extensions, but no AUTH line at all inside TLS
+				io.WriteString(conn, "250-fake.example\r\n250-8BITMIME\r\n250 SIZE 4242\r\n")
 			case inTLS && behavior == "tls-ehlo-bare":
 				// inside TLS the server greets with a single line: it offers NO extension at all
 				io.WriteString(conn, "250 fake.example\r\n")
@@ -263,7 +266,7 @@ func evalC10Client(c C10ClientCase) (f *h.Finding) {
 	var callErr error
 	var authCaps string
 	var sizeSeen int
-	var haveClient bool
+	var haveClient, plainMechTrusted bool
 	done := make(chan struct{})
 	useClient := func(cl *smtp.Client) {
 		// what a careful caller does next: look at the capabilities, authenticate, send
@@ -272,6 +275,10 @@ func evalC10Client(c C10ClientCase) (f *h.Finding) {
 			authCaps = v
 		}
 		sizeSeen, _ = cl.MaxMessageSize()
+		// every accessor answers from the hello inside TLS: a mechanism only the plaintext hello named is not supported
+		if cl.SupportsAuth("PLAINTEXTMECH") || cl.SupportsAuth("INJECTED") {
+			plainMechTrusted = true
+		}
 		if c.Auth {
 			// as the package-level SendMail does: authenticate only if the (renegotiated) hello offers AUTH
 			if ok, _ := cl.Extension("AUTH"); !ok {
@@ -346,6 +353,23 @@ func evalC10Client(c C10ClientCase) (f *h.Finding) {
 	}
 	if bytes.Contains(srv.afterGarbage, []byte("secret")) || bytes.Contains(srv.afterGarbage, []byte("MAIL FROM")) {
 		return h.F("c10-plaintext-leak", "%s: after a garbled handshake the client sent %q in the clear", desc, srv.afterGarbage)
+	}
+	if plainMechTrusted {
+		return h.F("c10-plaintext-capabilities-trusted", "%s: after the upgrade SupportsAuth still reports a mechanism that only the plaintext hello (or an injected reply) named", desc)
+	}
+	if c.Behavior == "tls-ehlo-noauth" {
+		// the hello inside TLS offers 8BITMIME and SIZE 4242 but no AUTH
+		joined := strings.Join(srv.tlsLines, "")
+		if haveClient && (authCaps != "" || sizeSeen != 4242) {
+			return h.F("c10-plaintext-capabilities-trusted", "%s: the hello inside TLS offered SIZE 4242 and no AUTH, yet the client reports AUTH %q and SIZE %d", desc, authCaps, sizeSeen)
+		}
+		if strings.Contains(joined, "AUTH ") {
+			return h.F("c10-plaintext-capabilities-trusted", "%s: the client used AUTH, which only the plaintext hello offered: %q", desc, srv.tlsLines)
+		}
+		if c.Auth && callErr == nil {
+			return h.F("c10-plaintext-capabilities-trusted", "%s: AUTH was requested, the TLS session offers none, but the call chain returned nil", desc)
+		}
+		return nil
 	}
 	if c.Behavior == "tls-ehlo-refused" || c.Behavior == "tls-ehlo-bare" {
 		// the upgrade works, the renegotiated hello falls back to HELO: no capability may survive
@@ -460,7 +484,7 @@ func C10(tier string) int {
 	// client half
 	var ccases []C10ClientCase
 	for _, e := range []string{"NewClientStartTLS", "DialStartTLS", "SendMail"} {
-		for _, b := range []string{"good", "no-starttls", "ehlo-refused", "454", "220-garbage", "220-untrusted", "220-inject", "tls-ehlo-refused", "tls-ehlo-bare"} {
+		for _, b := range []string{"good", "no-starttls", "ehlo-refused", "454", "220-garbage", "220-untrusted", "220-inject", "tls-ehlo-refused", "tls-ehlo-bare", "tls-ehlo-noauth"} {
 			for _, a := range []bool{false, true} {
 				ccases = append(ccases, C10ClientCase{Entry: e, Behavior: b, Auth: a})
 			}
